@@ -150,15 +150,15 @@ def station(shard, lat, lon, alt, mask=None, mask_as="list", redef=None, arg=Non
             from beyond.orbits import StateVector
 
             for p in redef["prior"]:
-                # (same parent frame as the definition to come: a name that moves to *another* parent keeps
-                # its old edge in the orientation graph - reported separately, not part of this property)
-                if parent == "ITRF":
+                # (a prior may name its own parent: a name that moves to *another* parent keeps its old edge in
+                # the orientation graph - known finding C11/station-moved-to-another-parent)
+                if p.get("parent", parent) == "ITRF":
                     old = create_station(name, (p["lat"], p["lon"], p["alt"]), mask=p.get("mask"))
                 else:
                     from beyond.frames import frames as _fr
 
-                    old = create_station(name, (p["lat"], p["lon"], p["alt"]), parent_frame=_fr.get_frame(parent),
-                                         mask=p.get("mask"))
+                    old = create_station(name, (p["lat"], p["lon"], p["alt"]), mask=p.get("mask"),
+                                         parent_frame=_fr.get_frame(p.get("parent", parent)))
                 if redef.get("use"):
                     sv = StateVector([7e6, 1e6, -2e6, 10.0, 20.0, 30.0], Date(50000, 1000.0), "cartesian", "ITRF")
                     sv.copy(frame=old, form="spherical")
@@ -390,14 +390,18 @@ def target(draw, with_other):
 
 
 @st.composite
-def redefinition(draw, shard, site):
+def redefinition(draw, shard, site, parent="ITRF"):
     """None (3 of 4) or the earlier holder(s) of the station's name: independent coordinates,
     the very same coordinates, or the same coordinates with only the mask changing."""
     if draw(st.integers(0, 3)) != 0:
         return None, None
-    kind = draw(st.sampled_from(["other", "other", "other", "same", "mask"]))
+    kind = draw(st.sampled_from(["other", "other", "other", "same", "mask", "moved", "moved"]))
     mask = None
-    if kind == "other":
+    if kind == "moved":
+        # the name was held by a station created in ANOTHER Earth-fixed parent frame
+        prior = [draw(geodetic(shard + 3))]
+        prior[0]["parent"] = draw(st.sampled_from([q for q in ("ITRF", "PEF", "TIRF") if q != parent]))
+    elif kind == "other":
         prior = [draw(geodetic(shard + 3)) for _ in range(draw(st.integers(1, 2)))]
     elif kind == "same":
         prior = [dict(site)]
@@ -416,9 +420,9 @@ PARENTS = ["ITRF", "ITRF", "ITRF", "ITRF", "PEF", "TIRF"]
 def topo_case(draw, shard, tier):
     other = draw(geodetic(shard)) if draw(st.integers(0, 3)) == 0 else None
     site = draw(geodetic(shard))
-    redef, mask = draw(redefinition(shard, site))
     # the Earth-fixed frame the station is created in (WGS84 = ITRF is the default)
     parent = PARENTS[(draw(st.integers(0, 5)) + shard) % 6]
+    redef, mask = draw(redefinition(shard, site, parent))
     return dict(shard=shard, site=site, other=other, date=draw(date(shard)), redef=redef, mask=mask, parent=parent,
                 targets=draw(st.lists(target(other is not None), min_size=1, max_size=24)))
 
@@ -802,6 +806,39 @@ def redefined_station(case):
     return fr, cls
 
 
+def moved_parent(case):
+    r = case.get("redef")
+    return bool(r) and any(p.get("parent", case.get("parent", "ITRF")) != case.get("parent", "ITRF") for p in r["prior"])
+
+
+def compare_or_known(case, fr, sv, dt, site, triad, call):
+    """Runs the comparison `call()`.  For a station whose name was registered before under another
+    parent frame a failure is looked at more closely: if the library's cartesian answer is what the
+    FIRST definition's axes give (target rotated from the old parent frame with the old station's
+    north / west / up, origin of the new station subtracted in the new axes) it is re-raised under the
+    kind `stale-parent-edge` - the known finding; any other wrong answer stays what it was."""
+    try:
+        return call()
+    except Violation as first:
+        if not moved_parent(case) or first.kind == "stale-parent-edge":
+            raise
+        prior = case["redef"]["prior"][0]
+        s0, (e0, n0, u0) = site_of(prior["lat"], prior["lon"], prior["alt"])
+        east, north, up = triad
+        t0 = np.array([n0, -e0, u0])
+        t1 = np.array([north, -east, up])
+        in_old = np.asarray(sv.copy(form="cartesian").copy(frame=prior["parent"]).base, float)
+        want = np.concatenate((t0 @ in_old[:3] - t1 @ site, t0 @ in_old[3:]))
+        got = np.asarray(sv.copy(form="cartesian").copy(frame=fr).base, float)
+        dp = float(np.linalg.norm(got[:3] - want[:3]))
+        dv = float(np.linalg.norm(got[3:] - want[3:]))
+        if dp <= 1e-6 + 1e-13 * float(np.linalg.norm(want[:3])) and dv <= 1e-9 + 1e-13 * float(np.linalg.norm(want[3:])):
+            raise Violation("stale-parent-edge",
+                            f"station name registered before in {prior['parent']}, now in {case.get('parent', 'ITRF')}: the "
+                            f"conversion uses the first definition's axes ({first.msg})", first_kind=first.kind) from None
+        raise
+
+
 def check_topocentric(case):
     g = case["site"]
     fr, redef_cls = redefined_station(case)
@@ -827,7 +864,8 @@ def check_topocentric(case):
         sph = sv.copy(frame=fr.name if t.get("spell") == "name" else fr, form="spherical")
         if sph.frame is not fr or sph.form.name != "spherical":
             raise Violation("topo-meta", f"copy(frame=station, form='spherical') gave frame {sph.frame} form {sph.form.name}")
-        w, rng, az, el = compare_topo(sph.base, site, triad, p, v, f"target {k} ({labels[0][4:]})", factor)
+        w, rng, az, el = compare_or_known(case, fr, sv, dt, site, triad, lambda: compare_topo(
+            sph.base, site, triad, p, v, f"target {k} ({labels[0][4:]})", factor))
         if not np.array_equal(np.asarray(sv.base, float), before):
             raise Violation("source-mutated", "copy(frame=station) changed the receiver")
         worst = max(worst, w)
@@ -892,7 +930,8 @@ def check_measures(case):
                                 + (f" (x {legs} legs)" if name == "Range" else ""))
         # ... which are the oracle's
         synth = [vals["Range"] / legs, vals["Azimut"], vals["Elevation"], vals["Doppler"], sph[4], sph[5]]
-        w_, rng, az, el = compare_topo(synth, site, triad, p, v, f"measure of target {k}", factor)
+        w_, rng, az, el = compare_or_known(case, fr, sv, dt, site, triad, lambda: compare_topo(
+            synth, site, triad, p, v, f"measure of target {k}", factor))
         worst = max(worst, w_)
         cls += labels + sky_classes(az, el, rng)
     return dict(nt=True, cls=cls, ratio=worst)
@@ -961,7 +1000,15 @@ LEVEL_NOTE = ("Exploration, not proof. Inertial targets rely on the library's ow
               "conversion (decided by C02). <= 30 stations are registered per worker process.")
 TECHNIQUE = "hypothesis strategies + independent geodesy oracle (vf/oracles/earth.py)"
 
+def _moved_parent_finding(facet, case, kind, msg, data):
+    """Input class: the failing station's name was registered before under a different parent_frame.
+    Failure kind: the answer is the one the first definition's axes give (established by
+    compare_or_known with the oracle); any other failure of such a station is not matched."""
+    return facet in ("topocentric", "measures") and moved_parent(case) and kind == "stale-parent-edge"
+
+
 FINDINGS = {
+    "C11/station-moved-to-another-parent": _moved_parent_finding,
     # create_station(mask=<numpy array>) : `if mask` on an array
     "C11/mask-ndarray-truth": lambda facet, case, kind, msg, data: (
         facet == "mask" and case.get("how") == "ndarray"
